@@ -24,6 +24,10 @@ CLAIMED = {
          'COPIED flag and offset field of installed L1/L2 entries, fate of the allocation displaced by map_cluster, source of every free_clusters argument, no constant-zero release count: decided at every site; equality of stored and counted references (arithmetic of spans and counts) not decided', 'C03'),
  'C12': ('backend-effect ordering typestate (growth sites of the C04 engine), fault-model typestate for the rollback, data-dependence provenance of the rollback closure, dominance of the zero-length guard, held-lock dataflow',
          'header switch after the relocated table is synced, old table released after the synced switch, rollback runs and restores old-state values, directly written refblock private and zero-padded, zero-length requests filtered, no self-deadlock on the growth path; computed sizes not decided', 'C12'),
+ 'C09': ('interval abstract interpretation with value numbering (constant propagation per cluster size x refcount width, order facts), header layout scan',
+         'version-2 defaults at every Ok exit of the parser, header layout and codec configuration, panic freedom of the device constructor over the accept set (182 configurations), derived geometry = specification formulas in 91 configurations, bounce read of a compressed cluster covers the data; agreement of reads with an independent implementation and validity of formatted images not decided', 'C09'),
+ 'C14': ('interval abstract interpretation over MIR (value numbering, order facts, widening, cluster_bits partitioning, small value sets for enum discriminants)',
+         'accept set of the header parser at every Ok exit, panic freedom of the parser, the extension parser and the device constructor for every byte string / accepted header, bounded refcount-table allocation, progress of the extension walk, inflate status accept set; operations on devices with malformed L1/L2/refcount tables not decided', 'C14'),
  'C15': ('bit-provenance abstract interpretation of accessor and packing code against the specification bit tables; layout and configuration scans; field-use agreement of inverse key functions',
          'accessor bit fields, compressed descriptor split (13 cluster sizes), refcount get/set for 7 widths x 16 indices, byte-order symmetry, header layout and serialiser configuration, backing-name offset provenance; arithmetic results and round trips not decided', 'C15'),
  'C17': ('error-value def-use discipline + restore/undo typestate in the fault model',
